@@ -18,7 +18,7 @@ def make_job(spec, size):
 
     def body(A, inp):
         r1 = spec.call(inp)
-        r2 = spec.call(inp, swap=True)
+        r2 = A.second(lambda: spec.call(inp, swap=True))
         for (nm, kind), v in zip(spec.outs, r1):
             A.observe(nm, v)
         for (nm, kind), v in zip(spec.outs, r2):
@@ -52,7 +52,7 @@ def multipitch_empty_frames_job(ref_counts, est_counts):
             return (t, [f if len(f) else np.array([]) for f in fr]) if not A.sym else side
         a = dict(ref=fix(inp['ref']), est=fix(inp['est']), kw=inp['kw'])
         r1 = spec.call(a)
-        r2 = spec.call(a, swap=True)
+        r2 = A.second(lambda: spec.call(a, swap=True))
         for (nm, kind), v in zip(spec.outs, r1):
             A.observe(nm, v)
         # precision <-> recall, accuracy symmetric (raw and chroma); the error scores are normalised by the reference count and do not swap
